@@ -216,6 +216,18 @@ package vnet
 //@   ensures [bound] r.lastID <= 254 && r.lastID >= old(r.lastID)
 //@   loop 1 invariant [bound] r.lastID <= 254 && r.lastID >= old(r.lastID)
 
+// attaching a NIC: every address registered for it lies inside the router's subnet (inNet: net.IPNet.Contains as an
+// uninterpreted predicate of the network object and the textual address), or an error is returned
+//@ func (r *Router) addNIC(nic NIC) (err error)
+//@   locked r.mutex
+//@   requires nic != nil && r.ipv4Net != nil && len(r.ipv4Net.IP) >= 3 && r.nics != nil && r.lastID <= 254
+//@   modifies r.lastID, r.nics[*]
+//@   ensures [subnet] forall s string :: {s in r.nics} (s in r.nics) && !old(s in r.nics) ==> inNet(ref(r.ipv4Net), s)
+//@   ensures [kept] forall s string :: {s in r.nics} old(s in r.nics) ==> (s in r.nics)
+//@   loop 1 invariant [scan] held(r.mutex) && 0 <= rangeindex + 1 && rangeindex < len(ips) && r.nics != nil && r.lastID <= 254 &&
+//@            (forall s string :: {s in r.nics} (s in r.nics) && !old(s in r.nics) ==> inNet(ref(r.ipv4Net), s)) &&
+//@            (forall s string :: {s in r.nics} old(s in r.nics) ==> (s in r.nics))
+
 // ---- socket table of a host (C13).  covers(a, b): a bind on IP a conflicts with / serves IP b.
 //@ monitor udpConnMap mutex: portMap
 //@ pure covers(a net.IP, b net.IP) bool = ipUnspec[base(a)] || ipUnspec[base(b)] || ipStr[base(a)] == ipStr[base(b)]
@@ -461,6 +473,6 @@ package vnet
 
 //@ property C02: networkAddressTranslator.translateOutbound, networkAddressTranslator.findOutboundMapping, networkAddressTranslator.allocUDPPort, networkAddressTranslator.removeMapping
 //@ property C03: networkAddressTranslator.translateInbound, networkAddressTranslator.removeMapping
-//@ property C13: Router.assignIPAddress, udpConnMap.insert, udpConnMap.find, udpConnMap.delete, newUDPConn, UDPConn.onInboundChunk, UDPConn.Close, Net.onInboundChunk, Net.onClosed, Net.allocateLocalAddr, Net.assignPort, Net._dialUDP
+//@ property C13: Router.assignIPAddress, Router.addNIC, udpConnMap.insert, udpConnMap.find, udpConnMap.delete, newUDPConn, UDPConn.onInboundChunk, UDPConn.Close, Net.onInboundChunk, Net.onClosed, Net.allocateLocalAddr, Net.assignPort, Net._dialUDP
 //@ property C10: UDPConn.ReadFrom, UDPConn.Read, UDPConn.SetReadDeadline, UDPConn.SetDeadline
 //@ property C16: NewLossFilter, LossFilter.onInboundChunk
